@@ -23,7 +23,7 @@ SUITE_MODULES = {
     "sheader": "FrameC",
     "typestate": "StreamTSC", "request": "SessionC",
     "session": "E2C", "control": "E2C", "control_cut": "E2C", "streams": "E2C", "foreign": "E2C",
-    "unknown_uni": "E2C", "stall": "E2C", "pace": "E2C",
+    "unknown_uni": "E2C", "stall": "E2C", "pace": "E2C", "emit": "E2C", "signals": "E2C", "wdgram": "E2C", "client": "E2C",
     "wire": "WireC", "settings": "WireC", "dgram": "WireC", "capsule": "WireC", "ids": "WireC", "status": "WireC",
 }
 
@@ -116,7 +116,7 @@ PROPS["C13"] = {
 PROPS["C17"] = {
     "title": "Identifier algebra is exact and foreign-session traffic is never delivered",
     "corr_modules": ["WireC", "FrameC", "E2C"],
-    "suites": [("e1", "ids", ["debug"]), ("e1", "dgram", ["debug"]), ("e2", "foreign", ["debug"])],
+    "suites": [("e1", "ids", ["debug"]), ("e1", "dgram", ["debug"]), ("e2", "foreign", ["debug"]), ("e2", "wdgram", ["debug"])],
     "technique": PROOF_TECH,
     "level_text": "theorems for all 2^62 ids: acceptance iff client-initiated bidirectional, conversions mutually inverse and in range, unsafe preconditions never violated, parsed session ids always valid; tie: differential runs over all low-bit classes x boundary magnitudes",
     "level_note": CODEC_NOTE + "; the driver-level session filter (foreign streams stopped, foreign datagrams dropped) is exercised by the wire engine, see DESIGN.md",
@@ -127,8 +127,8 @@ PROPS["C17"] = {
 
 PROPS["C03"] = {
     "title": "Datagram payloads are never altered and the size contract is exact",
-    "corr_modules": ["WireC"],
-    "suites": [("e1", "dgram", ["debug"])],
+    "corr_modules": ["WireC", "E2C"],
+    "suites": [("e1", "dgram", ["debug"]), ("e2", "wdgram", ["debug"])],
     "technique": PROOF_TECH,
     "level_text": "theorems: datagram framing round-trips for every session id and payload, a delivered payload is exactly the suffix after the quarter-stream-id, L <= max <=> not refused as too large, the maximum is total and never exceeds the transport's (pre-repair code refuted by a computed witness); tie: differential runs of the proto codec",
     "level_note": CODEC_NOTE + "; loss/reordering are allowed by the property and not modelled; quinn's datagram transport is an oracle",
@@ -151,8 +151,8 @@ PROPS["C04"] = {
 
 PROPS["C18"] = {
     "title": "Only well-formed WebTransport requests and responses are admitted",
-    "corr_modules": ["WireC", "QpackC", "SessionC"],
-    "suites": [("e1", "status", ["debug"]), ("e1", "request", ["debug"])],
+    "corr_modules": ["WireC", "QpackC", "SessionC", "E2C"],
+    "suites": [("e1", "status", ["debug"]), ("e1", "request", ["debug"]), ("e2", "client", ["debug"])],
     "technique": PROOF_TECH,
     "level_text": "theorems: request admitted iff extended CONNECT/webtransport/https with authority and path; every status constructor stays within 100..599 (print/parse identity on the whole range by exhaustive computation inside the proof); acceptance iff 2xx; reserved fields can never be overridden; pre-repair code refuted; tie: all 65 536 status integers plus decorated strings through the real parser",
     "level_note": CODEC_NOTE + "; '+200' and '0200' denote in-range numbers and are treated as numeric (DESIGN.md 5 C18)",
@@ -252,13 +252,38 @@ PROPS["C09"] = {
 
 PROPS["C16"] = {
     "title": "Everything the endpoint emits is well-formed HTTP/3 and WebTransport",
-    "corr_modules": ["WireC", "QpackC", "StreamTSC", "FrameC"],
-    "suites": [("e1", "settings", ["debug"]), ("e1", "qpack", ["debug"]), ("e1", "sheader", ["debug"]), ("e1", "typestate", ["debug"])],
+    "corr_modules": ["WireC", "QpackC", "StreamTSC", "FrameC", "E2C"],
+    "suites": [("e1", "settings", ["debug"]), ("e1", "qpack", ["debug"]), ("e1", "sheader", ["debug"]), ("e1", "typestate", ["debug"]),
+               ("e2", "emit", ["debug"]), ("e2", "client", ["debug"])],
     "technique": PROOF_TECH,
     "level_text": "theorems against independently written specification constants: control stream = type 0 + one SETTINGS frame with the WebTransport settings for every map order; stream preambles = registered type/signal + session id in minimal varints; datagrams prefixed by the quarter stream id; field sections with zero Required Insert Count/Base and sound static references; error codes equal the registry; tie: encoder outputs compared byte for byte with the model",
     "level_note": CODEC_NOTE + "; Spec constants transcribed from the RFCs from memory",
     "design_ref": "DESIGN.md 5 (C16)",
     "trusted_base": ["Spec/Spec9114.v registry values"],
+    "assumptions": [],
+}
+
+PROPS["C02"] = {
+    "title": "Session setup carries the request faithfully and mirrors the decision",
+    "corr_modules": ["QpackC", "SessionC", "E2C"],
+    "suites": [("e1", "qpack", ["debug"]), ("e1", "request", ["debug"]), ("e2", "client", ["debug"])],
+    "technique": PROOF_TECH,
+    "level_text": "theorems: request fields = fixed pseudo-headers + URL authority/path, extras kept and never overriding; outcome = f(status) only (2xx iff session), extra response fields irrelevant; QPACK prefix integers round-trip for every width, static references sound, decoder total; tie: header maps through the real encoder/decoder (static hits, Huffman/raw, length boundaries) and the real client against a raw server for every status class -- the request bytes on the wire equal the model's byte for byte",
+    "level_note": CODEC_NOTE + WIRE_NOTE + "; URL parsing (url crate) is an oracle; the Huffman round trip is compared exhaustively (all symbols, sampled pairs) rather than proved in this revision",
+    "design_ref": "DESIGN.md 5 (C02)",
+    "trusted_base": ["url crate", "httlib-huffman (modelled from its table; compared exhaustively on 1-symbol strings and 1-2 byte inputs every run)"],
+    "assumptions": [],
+}
+
+PROPS["C06"] = {
+    "title": "Stream termination signals carry their codes end to end",
+    "corr_modules": ["E2C"],
+    "suites": [("e2", "signals", ["debug"]), ("e2", "streams", ["debug"])],
+    "technique": PROOF_TECH,
+    "level_text": "theorems: the varint conversions are the identity below 2^62 (no assertion can fire), every reset/stop code is reported unchanged, no two signals are conflated, finish succeeds iff the peer acknowledged everything; tie: reset/stop/finish with codes at every varint boundary in both directions between the real driver and a raw quinn peer (the code on the wire is observed too)",
+    "level_note": "partial: " + CODEC_NOTE + WIRE_NOTE + "; quinn's stream life-cycle (when stopped() resolves, acknowledgement tracking) is an oracle",
+    "design_ref": "DESIGN.md 5 (C06)",
+    "trusted_base": ["quinn stream life-cycle"],
     "assumptions": [],
 }
 
